@@ -248,6 +248,36 @@ def main(tier, seed):
                 validated += 1
                 if err:
                     violations.append(("wrong-solution", "request %s: %s" % (tag, err)))
+        # a valid request larger than the 2 MiB default body limit of the framework (the server documents that it
+        # accepts instances of any size): padded with locations nobody uses
+        if up and srv.poll() is None:
+            tag = "large_"
+            base = instgen.gen_instance(rng, {"depots": "ample", "nlocs": 3})
+            n0 = len(base["locations"])
+            npad = 440
+            base["locations"] += [{"id": "P%d" % k} for k in range(npad)]
+            dh = base["deadHeadTrips"]
+            dh["indices"] += ["P%d" % k for k in range(npad)]
+            n = n0 + npad
+            for key, fill in (("durations", 12000), ("distances", 150000)):
+                m = dh[key]
+                for row in m:
+                    row += [fill] * npad
+                for a in range(npad):
+                    m.append([fill] * (n0 + a) + [0] + [fill] * (npad - a - 1))
+            inst = nonce_instance(base, tag)
+            q = {"kind": "valid", "payload": json.dumps(inst, indent=1), "inst": inst, "tag": tag}
+            q["status"], q["body"] = request(port, "valid", q["payload"], timeout=180)
+            total += 1
+            counts["large(%d KiB)->%s" % (len(q["payload"]) // 1024, q["status"])] = 1
+            if q["status"] != 200:
+                violations.append(("large-valid-request-not-answered", "POST /solve with a valid body of %d bytes -> %s %s"
+                                   % (len(q["payload"]), q["status"], q["body"][:100])))
+            else:
+                err = validate_solution(d, q, total)
+                validated += 1
+                if err:
+                    violations.append(("wrong-solution", "request %s: %s" % (tag, err)))
     finally:
         srv.kill()
         srv.wait()
